@@ -449,8 +449,6 @@ Qed.
 
 (* ---------------------------------------------------------------- DemeTree.run_metaepoch *)
 Definition awake (c : cfg) (m : st) (i : nat) : bool := negb (hib_on c && d_hib (dnth i (demes m))).
-Definition meta_body (c : cfg) (fuel : nat) (d : nat) : D bool :=
-  h <- r_hibernating d ;; if hib_on c && h then ret false else run_deme c fuel d ;;; ret false.
 
 Lemma awake_shape c m m' : shape m' = shape m -> forall i, awake c m' i = awake c m i.
 Proof. intros S i. unfold awake. now rewrite (shape_hib i m m' S). Qed.
@@ -512,12 +510,12 @@ Qed.
 
 Lemma do_sprout_b_loop_sim ds0 : forall seeds m inits evs b s1 rest,
   (forall pk, In pk seeds -> fst pk < length ds0) -> (exists new, demes m = ds0 ++ new) ->
-  for_ seeds (fun pk : nat * list Z => lv <- r_level (fst pk) ;; for_ (snd pk) (fun _ => sprout_child (fst pk) (S lv))) (mk m inits) evs = Some (b, s1, rest) ->
+  for_ seeds sprout_parent (mk m inits) evs = Some (b, s1, rest) ->
   b = false /\ rest = evs /\ exists p', s1 = mk (set_demes m (do_sprout (mcount m) seeds inits (fun i => d_lvl (dnth i ds0)) (demes m))) p'.
 Proof.
   induction seeds as [|[p ks] seeds IH]; intros m inits evs b s1 rest V (new & P) H.
   - apply ret_inv in H. injection H as -> -> ->. repeat split. exists inits. cbn [do_sprout]. destruct m; reflexivity.
-  - cbn [for_] in H. apply bind_inv in H as (x & sa & ea & Hb & H). cbn [fst snd] in Hb.
+  - cbn [for_] in H. apply bind_inv in H as (x & sa & ea & Hb & H). unfold sprout_parent in Hb. cbn [fst snd] in Hb.
     apply bind_inv in Hb as (lv & sb & eb & Hl & Hb). unfold r_level, deme_of in Hl. cbn [ms mk] in Hl. injection Hl as <- <- <-.
     apply sprout_children_sim in Hb as (-> & -> & ->).
     assert (Ep : d_lvl (dnth p (demes m)) = d_lvl (dnth p ds0)).
@@ -711,16 +709,16 @@ Proof.
 Qed.
 
 Lemma run_tree_loop_sim c fuel : gens_ok c -> forall f m p evs r s1 rest,
-  while_ f (fun _ : unit => v <- p_gsc c ;; ret (negb v)) (fun _ => run_step c fuel ;;; ret (tt, false)) tt (mk m p) evs = Some (r, s1, rest) ->
+  while_ f (run_cond c) (run_body c fuel) tt (mk m p) evs = Some (r, s1, rest) ->
   exists used m' p', evs = used ++ rest /\ s1 = mk m' p' /\ run c (set_pc m PMain) used = Some (set_pc m' PDone).
 Proof.
   intros G. induction f as [|f IH]; intros m p evs r s1 rest H; [discriminate|].
-  cbn [while_] in H. apply bind_inv in H as (b & sa & ea & Hc & H).
+  cbn [while_] in H. apply bind_inv in H as (b & sa & ea & Hc & H). unfold run_cond in Hc.
   apply bind_inv in Hc as (v & sb & eb & Hv & Hc). apply p_gsc_inv in Hv as (-> & -> & Gv). apply ret_inv in Hc. injection Hc as -> -> ->.
   destruct v; cbn [negb] in H.
   - apply ret_inv in H. injection H as -> -> ->. exists [EGsc true], (seen_or m true), p. split; [reflexivity|]. split; [reflexivity|].
     cbn [run]. now rewrite step_main_true.
-  - apply bind_inv in H as (rb & sc & ec & Hb & H). apply bind_inv in Hb as ([] & sd & ed & Hs & Hb).
+  - apply bind_inv in H as (rb & sc & ec & Hb & H). unfold run_body in Hb. apply bind_inv in Hb as ([] & sd & ed & Hs & Hb).
     apply ret_inv in Hb. injection Hb as -> -> ->. cbn [snd fst] in H.
     rewrite seen_or_false in Hs. apply run_step_sim in Hs as (u1 & m1 & p1 & -> & -> & R1); auto.
     apply IH in H as (u2 & m2 & p2 & -> & -> & R2).
